@@ -169,6 +169,61 @@ theorem dualFeasible_cells (δ : Rat) (u v : Vec) (C : Mat) (h : DualFeasible δ
     u[i] + v[j] ≤ C[i][j] + δ :=
   dualFeasible_index h i j hi hi' hj hj'
 
+/-- entrywise agreement within tolerance 0 is equality -/
+theorem eq_of_within_zero : ∀ (a b : Vec), a.length = b.length →
+    (∀ xy ∈ List.zip a b, xy.1 - xy.2 ≤ 0 ∧ xy.2 - xy.1 ≤ 0) → a = b
+  | [], [], _, _ => rfl
+  | [], _ :: _, h, _ => by simp at h
+  | _ :: _, [], h, _ => by simp at h
+  | x :: a, y :: b, h, hz => by
+    have h1 := hz (x, y) (by simp)
+    have hxy : x = y := le_antisymm (by linarith [h1.1]) (by linarith [h1.2])
+    subst hxy
+    rw [eq_of_within_zero a b (by simpa using h) (fun xy hm => hz xy (by simp [hm]))]
+
+/-- **Exact mode of the certificate checker.**  With all three tolerances 0 an accepted `(P, u, v)`
+makes `P` an exact coupling of `p` and `q` (`Feasible`) that no coupling beats (`Optimal`) — the
+statement of the property itself, for all sizes and costs.  (The correspondence run uses non-zero
+tolerances only because the implementation computes in float64; `check_sound` is that case.) -/
+theorem check_exact_optimal (p q : Vec) (C P : Mat) (u v : Vec)
+    (h : check p q C P u v 0 0 0 = true) : Optimal p q C P := by
+  have hs := check_sound p q C P u v 0 0 0 h
+  simp only [check, Bool.and_eq_true, decide_eq_true_eq, beq_iff_eq] at h
+  obtain ⟨⟨⟨⟨⟨⟨⟨⟨_hC, hP⟩, _hu⟩, _hv⟩, _hge⟩, _hrow⟩, _hcol⟩, _hdual⟩, _hgap⟩ := h
+  obtain ⟨hge, hrow, hcol, hrl, hcl, hopt⟩ := hs
+  refine ⟨⟨shapeOK_iff.mp hP, ?_, eq_of_within_zero _ _ hrl hrow, eq_of_within_zero _ _ hcl hcol⟩, ?_⟩
+  · intro r hr x hx
+    simpa using hge r hr x hx
+  · intro Q hQ
+    have := hopt Q hQ
+    simpa [eta] using this
+
+/-- A coupling exists only between measures of equal total mass: `Σp = ΣQ = Σq`.  (This is why
+`lot_vectors_*` normalise both the item and the reference distribution before `transport_plan`;
+with unequal masses the quantifier "every coupling Q" in `check_sound` would be empty.) -/
+theorem feasible_mass_balance (p q : Vec) (Q : Mat) (h : Feasible p q Q) : p.sum = q.sum := by
+  obtain ⟨⟨_, hm⟩, _, hr, hc⟩ := h
+  have := sum_colSums hm
+  rw [hc, hr] at this
+  exact this.symm
+
+/-- The optimal cost is a function of `(p, q, C)` alone: two optimal plans (e.g. the two vertices
+of a tie, or the plans of two solver runs) have the same cost. -/
+theorem optimal_cost_unique (p q : Vec) (C P P' : Mat) (h : Optimal p q C P) (h' : Optimal p q C P') :
+    inner P C = inner P' C :=
+  le_antisymm (h.2 P' h'.1) (h'.2 P h.1)
+
+/-- Two certified plans for the same problem differ in cost by at most the certified slack: if
+`P'` is an exact coupling and `(P, u, v)` is accepted, then `⟨P,C⟩ − ⟨P',C⟩ ≤ eta`; with `P` exact
+and `P'` accepted too (any hints `u'`, `v'`), `|⟨P,C⟩ − ⟨P',C⟩| ≤ max eta eta'`. -/
+theorem certified_costs_close (p q : Vec) (C P P' : Mat) (u v u' v' : Vec) (eps δ gap eps' δ' gap' : Rat)
+    (h : check p q C P u v eps δ gap = true) (h' : check p q C P' u' v' eps' δ' gap' = true)
+    (hP : Feasible p q P) (hP' : Feasible p q P') :
+    inner P C - inner P' C ≤ eta p δ gap ∧ inner P' C - inner P C ≤ eta p δ' gap' := by
+  have a := (check_sound p q C P u v eps δ gap h).2.2.2.2.2 P' hP'
+  have b := (check_sound p q C P' u' v' eps' δ' gap' h').2.2.2.2.2 P hP
+  constructor <;> linarith
+
 /-! ### Non-vacuity: a 2×3 instance with a tie (every coupling costs 3/2) and a zero-mass entry -/
 
 def exP : Vec := [1/2, 1/2]
@@ -196,5 +251,15 @@ example :
   · unfold NonNeg; decide +kernel
   · unfold NonNeg; decide +kernel
   · unfold DualFeasible; decide +kernel
+
+/-- the exact-mode theorem applies to the tie instance: both vertices are optimal, with equal cost,
+and masses balance -/
+example : Optimal exP exQ exC exPlan ∧ Optimal exP exQ exC exPlan2 ∧ exP.sum = exQ.sum ∧
+    inner exPlan exC = inner exPlan2 exC := by
+  have h1 : Optimal exP exQ exC exPlan :=
+    check_exact_optimal _ _ _ _ [0, 0] [1, 2, 3] (by decide +kernel)
+  have h2 : Optimal exP exQ exC exPlan2 :=
+    check_exact_optimal _ _ _ _ [0, 0] [1, 2, 3] (by decide +kernel)
+  exact ⟨h1, h2, feasible_mass_balance _ _ _ h1.1, optimal_cost_unique _ _ _ _ _ h1 h2⟩
 
 end VecModel.OT
